@@ -1,6 +1,8 @@
 package main
 
 import (
+	"verif/vtime"
+
 	"bytes"
 	"errors"
 	"fmt"
@@ -114,19 +116,20 @@ type ctx struct {
 	v     *verdict
 	class string
 
-	pushed    []bool // written, or handed out by GetPacket
-	recovered []bool // the first copy the recorder got came from the cache
-	avail     []bool // written, or recoverable from the cache
-	availStep []int
+	pushed               []bool // written, or handed out by GetPacket
+	recovered            []bool // the first copy the recorder got came from the cache
+	avail                []bool // written, or recoverable from the cache
+	availStep            []int
 	allWritten, allAvail bool
 
 	order [2][]pushEv
 	refs  [2][2]*refRun
 	haveO [2]bool
 
-	usedRef [2][2]map[int]bool // reference samples already matched with a block
-	present [2]map[int]int  // frame -> block index (intact)
-	corrupt [2]map[int]bool // frame -> a corrupted block is attributed to it
+	openedAtStop bool               // a file was created while the recorder was being stopped
+	usedRef      [2][2]map[int]bool // reference samples already matched with a block
+	present      [2]map[int]int     // frame -> block index (intact)
+	corrupt      [2]map[int]bool    // frame -> a corrupted block is attributed to it
 }
 
 func (c *ctx) pushOrder(t int) []pushEv {
@@ -235,6 +238,12 @@ func (c *ctx) overtaken(fi int) bool {
 func (c *ctx) splitBefore(k, fi int) string {
 	cfg := c.st.cfg
 	fr := c.st.fr[trV]
+	for k < len(fr) && !fr[k].Key {
+		k++
+	}
+	if k >= len(fr) {
+		return ""
+	}
 	pw, ph := fr[k].W, fr[k].H
 	for x := k + 1; x <= fi && x < len(fr); x++ {
 		if cfg.Jump > 0 && x == cfg.PreN+cfg.Jump {
@@ -303,6 +312,29 @@ func (c *ctx) whyMissingVideo(k, fi int) string {
 	}
 	if s := c.splitBefore(k, fi); s != "" {
 		return "after-file-split/" + s
+	}
+	if g >= 0 {
+		r := c.ref(trV, false)
+		sg := r.samples[c.refSampleOf(trV, g)]
+		if sg.forced && c.openedAtStop {
+			return "file-opened-during-stop"
+		}
+		// a sender report reached the recorder between the arrival of the
+		// keyframe's first packet and its release by the builder
+		lo, hi := 1<<30, len(c.h.Steps)
+		for _, ev := range r.order {
+			if c.st.pk[ev.pkt].Track == trV && c.st.pk[ev.pkt].Frame == g && c.st.pk[ev.pkt].KF && ev.step < lo {
+				lo = ev.step
+			}
+		}
+		if !sg.forced && sg.at < len(r.order) {
+			hi = r.order[sg.at].step
+		}
+		for si, st := range c.h.Steps {
+			if st.K == "sr" && si > lo && si <= hi {
+				return "sender-report-before-keyframe-released"
+			}
+		}
 	}
 	// the keyframe it depends on was itself lost to the dependency
 	for x := fi - 1; x >= k; x-- {
@@ -445,9 +477,19 @@ func check(st *stream, h *History, o *obs) *verdict {
 	if cfg.Codec == "h264" {
 		wantExt, wantDoc = ".mkv", "matroska"
 	}
+	stopStamp := vtime.Base.Add(o.endAt).Format("2006-01-02T15:04:05.000")
+	for _, f := range o.files {
+		if ts, _ := parseRecName(f.name); ts == stopStamp {
+			c.openedAtStop = true
+		}
+	}
 	for fi, f := range o.files {
+		fcl := h.End
+		if ts, _ := parseRecName(f.name); ts == stopStamp {
+			fcl = "opened-during-stop"
+		}
 		if !f.closed {
-			v.add("file-not-closed/"+h.End, fmt.Sprintf("%s: no close of the file was observed by the time %s returned", f.name, h.End))
+			v.add("file-not-closed/"+fcl, fmt.Sprintf("%s: no close of the file was observed by the time %s returned", f.name, h.End))
 		} else if f.writesAfter > 0 {
 			v.add("write-after-close/"+h.End, fmt.Sprintf("%s: %d writes after the close", f.name, f.writesAfter))
 		}
@@ -504,7 +546,7 @@ func check(st *stream, h *History, o *obs) *verdict {
 			v.add("container/tracks", fmt.Sprintf("%s declares tracks %+v, expected %v (audio 48000 Hz 2 channels, video with pixel dimensions)", f.name, describeTracks(te), want))
 		}
 		if len(doc.Segment.Cluster) == 0 {
-			v.add("container/not-finalised", f.name+": no cluster at all (the writer appends a final cluster when it is closed)")
+			v.add("container/not-finalised/"+fcl, f.name+": no cluster at all (the writer appends a final cluster when it is closed)")
 		}
 		for _, cl := range doc.Segment.Cluster {
 			if len(cl.BlockGroup) > 0 {
@@ -566,6 +608,8 @@ func check(st *stream, h *History, o *obs) *verdict {
 						cl := "other/" + class
 						if c.overtaken(fi) {
 							cl = "keyframe-overtaken"
+						} else if s := c.splitBefore(0, fi); s != "" {
+							cl = "after-file-split/" + s
 						}
 						v.add("keyframe-flag/"+cl, fmt.Sprintf("%s is written without the keyframe flag", st.fname(t, fi)))
 					} else {
@@ -577,7 +621,13 @@ func check(st *stream, h *History, o *obs) *verdict {
 				}
 			}
 			if b.file == lastFile && b.time < lastTime {
-				v.add("timestamp-decreases/"+class, fmt.Sprintf("track %s: block time %d ms follows %d ms in %s", tname(t), b.time, lastTime, o.files[b.file].name))
+				tcl := class
+				for _, s := range h.Steps {
+					if s.K == "sr" {
+						tcl = "after-sender-report"
+					}
+				}
+				v.add("timestamp-decreases/"+tcl, fmt.Sprintf("track %s: block time %d ms follows %d ms in %s", tname(t), b.time, lastTime, o.files[b.file].name))
 			}
 			lastTime, lastFile = b.time, b.file
 		}
@@ -605,11 +655,16 @@ func check(st *stream, h *History, o *obs) *verdict {
 	kReady := -1
 	lossBeforeK := false
 	if cfg.hasVideo() {
+		// the connection's first keyframe: among the keyframes all of whose
+		// packets were available, the one whose first packet reached the
+		// recorder first (sending order on ties)
+		best := inf + 1
 		for fi, f := range st.fr[trV] {
 			all, _, _ := frameAvail(trV, fi)
 			if f.Key && all {
-				k = fi
-				break
+				if s := c.availStep[f.Pk[0]]; s < best {
+					k, best = fi, s
+				}
 			}
 		}
 	}
@@ -649,6 +704,8 @@ func check(st *stream, h *History, o *obs) *verdict {
 					cl := "other/" + class
 					if c.overtaken(b.frame) {
 						cl = "keyframe-overtaken"
+					} else if s := c.splitBefore(0, b.frame); s != "" {
+						cl = "after-file-split/" + s
 					}
 					v.add("container/video-dimensions/"+cl, fmt.Sprintf("%s declares %dx%d but contains keyframe %s of %dx%d",
 						o.files[fi].name, finfos[fi].w, finfos[fi].h, st.fname(trV, b.frame), f.W, f.H))
